@@ -1292,6 +1292,30 @@ def search(ctx):
                                    ("ecparameters", "Curve.from_der", I.curves.Curve.from_der, c.to_der("explicit"))):
             for how, m in structural_variants(enc):
                 S.probe(dec, f, m, "any", "structure %s of %s" % (how, label), c.name)
+    # 3b. explicit parameters whose field "prime" is damaged (even, composite, changed in the top byte) together with
+    #     compressed generator / public point: the decoders must still answer with a documented error or a key -
+    #     the modular square root is then asked to work modulo a number that is not an odd prime
+    for c in I.W:
+        if quick and c.name not in HEAVY:
+            continue
+        sk = K.SigningKey.from_secret_exponent(r.randrange(1, int(c.order)), c)
+        pb = int(c.curve.p()).to_bytes((int(c.curve.p()).bit_length() + 7) // 8, "big")
+        for label, dec, f, enc in (("spki/compressed/explicit", "VerifyingKey.from_der", K.VerifyingKey.from_der,
+                                    sk.verifying_key.to_der("compressed", "explicit")),
+                                   ("spki/hybrid/explicit", "VerifyingKey.from_der", K.VerifyingKey.from_der,
+                                    sk.verifying_key.to_der("hybrid", "explicit")),
+                                   ("sec1/compressed/explicit", "SigningKey.from_der", K.SigningKey.from_der,
+                                    sk.to_der("compressed", curve_parameters_encoding="explicit")),
+                                   ("ecparameters/compressed", "Curve.from_der", I.curves.Curve.from_der, c.to_der("explicit", "compressed"))):
+            at = enc.find(pb)
+            if at < 0:
+                continue
+            last = at + len(pb) - 1
+            for how, pos, val in (("even", last, enc[last] ^ 1), ("+2", last, (enc[last] + 2) & 0xFF), ("-2", last, (enc[last] - 2) & 0xFF),
+                                  ("xor 4", last, enc[last] ^ 4), ("top byte", at, enc[at] ^ 0x40), ("zero low byte", last, 0),
+                                  ("middle", at + len(pb) // 2, enc[at + len(pb) // 2] ^ 0x10)):
+                m = enc[:pos] + bytes([val]) + enc[pos + 1:]
+                S.probe(dec, f, m, "any", "field prime damaged (%s) in %s" % (how, label), c.name)
     # 4. every single-byte mutation (xor 01, xor 80, set 00, set FF): named encodings first, then
     #    explicit parameters and PEM, until the time budget is used up
     ctx.extra["search_fixed_part_s"] = round(time.time() - (S.t_end - ctx.budget(30, 420) * (3 if ctx.brokens else 1)), 1)
@@ -1438,6 +1462,10 @@ def search_plugin(S):
             S.probe("plugin.PublicEccKeyProxy.create_from_raw_fmt", f, raw[:k], "reject", "truncation to %d of 64 bytes of raw64" % k, c.name)
         for ext in (b"\x00", b"\x04", bytes(32)):
             S.probe("plugin.PublicEccKeyProxy.create_from_raw_fmt", f, raw + ext, "reject", "extension by %d bytes of raw64" % len(ext), c.name)
+        # ... and at the front (a SEC1 04 marker, junk, a second copy of X): only exactly X||Y is a raw key
+        for ext in (b"\x04", b"\x00", b"\x00\x04", bytes(5), raw[:32], header):
+            S.probe("plugin.PublicEccKeyProxy.create_from_raw_fmt", f, ext + raw, "reject",
+                    "%d bytes put in front of raw64" % len(ext), c.name)
         S.mutate(c, "raw64", "plugin.PublicEccKeyProxy.create_from_raw_fmt", f, raw, 0.3 if S.ctx.quick() else 1.0)
 
 
